@@ -251,6 +251,7 @@ func runC20(c *Ctx) {
 		{name: "lmtp", roots: []*ssa.Function{fn("(*Conn).handleDataLMTP$1")}},
 	}
 	var accs = map[string][]access{}
+	laByRole := map[string]*lockAnalysis{}
 	nAcc := 0
 	for _, ro := range roles {
 		var roots []*ssa.Function
@@ -264,6 +265,7 @@ func runC20(c *Ctx) {
 		// the accept role stops at the per-connection goroutine (that is the cmd role)
 		la := &lockAnalysis{c: c, entry: map[*ssa.Function]map[string]bool{}, at: map[ssa.Instruction]map[string]bool{}}
 		la.run(roots, ro.funcs)
+		laByRole[ro.name] = la
 		for f := range ro.funcs {
 			if la.entry[f] == nil {
 				continue
@@ -396,6 +398,38 @@ func runC20(c *Ctx) {
 		_, sm := c.Std()
 		R.Ob("(*Conn).Close/marks the connection closed on every path", c.P.Pos(f.Pos()), sm.Must(f)["st:Conn.closed=true"], "Conn.Close can return without setting closed (for example when closing the socket fails): the command loop keeps dispatching buffered commands on a connection whose session is gone")
 	}
+	// Conn.Close (from Server.Close, on another goroutine) logs the session out and forgets it under Conn.locker. The
+	// reset callback is the one callback the command loop makes under the same lock, after testing the session under
+	// it: Session.Reset therefore never overlaps Logout and never runs on a session that has been logged out.
+	R.Rule("R-reset-serialised-with-close", "E7 locksets", "the Session.Reset callback of reset() and the Logout of Conn.Close are both made with Conn.locker held, and reset() tests the session under that lock", 2)
+	nSer := 0
+	for _, it := range []struct{ role, fn, label string }{{"cmd", "(*Conn).reset", lSessReset}, {"srvclose", "(*Conn).Close", lLogout}} {
+		la := laByRole[it.role]
+		f := c.A.Func(it.fn)
+		if la == nil || f == nil {
+			continue
+		}
+		for _, site := range s.Find(f, it.label) {
+			nSer++
+			held := la.at[site]["Conn.locker"]
+			R.Ob(c.siteKey(site, "callback under Conn.locker"), c.P.InstrPos(site), held, fmt.Sprintf("%s makes the %s callback without holding Conn.locker (held: %v): Server.Close can log the session out while, or before, this callback runs", it.fn, strings.TrimPrefix(it.label, "cb:"), setList(la.at[site])))
+			// the session the callback is made on was read under the same lock
+			if cc := callCommon(site); cc != nil && cc.IsInvoke() {
+				okRead := true
+				src := stripConv(cc.Value)
+				if d := singleDef(src); d != nil {
+					src = d
+				}
+				if in, isI := src.(ssa.Instruction); isI {
+					if fld, _ := loadedField(src); fld != nil && fld.Name() == "session" {
+						okRead = la.at[in]["Conn.locker"]
+					}
+				}
+				R.Ob(c.siteKey(site, "session read under Conn.locker"), c.P.InstrPos(site), okRead, it.fn+" reads the session it calls back outside Conn.locker")
+			}
+		}
+	}
+	R.Ob("serialised callbacks/found", "-", nSer >= 2, fmt.Sprintf("%d callback sites", nSer))
 	c.R.Rule("R-status-fill-shape", "E1", "the command loop receives once per recipient occurrence: fillRemaining fills every recipient channel to capacity, otherwise the handler blocks forever on a channel no goroutine will write", 2)
 	ruleFillShape(c)
 
